@@ -53,6 +53,9 @@ var InterpStd = map[string]bool{
 	"internal/itoa":            false,
 	"connectrpc.com/connect":   false,
 	"github.com/rs/xid":        false,
+	"github.com/hashicorp/golang-lru/v2":           false,
+	"github.com/hashicorp/golang-lru/v2/simplelru": false,
+	"github.com/hashicorp/golang-lru/v2/internal":  false,
 	"google.golang.org/protobuf/types/known/timestamppb": false,
 	"google.golang.org/protobuf/types/known/wrapperspb":  false,
 }
